@@ -110,20 +110,38 @@ theorem isEmpty_of_perm {α : Type} {l1 l2 : List α} (h : l1.Perm l2) : l1.isEm
   have := h.length_eq
   cases l1 <;> cases l2 <;> simp_all
 
+theorem Row.domIn_merge {μ0 μ1 : Row n} {ctx must may : List Nat} (h0 : μ0.domIn ctx) (h1 : BoundsOK μ1 must may) :
+    (μ0.merge μ1).domIn (ctx ++ may) := by
+  intro v hv
+  rw [Row.get_merge] at hv
+  cases h : μ1.get v with
+  | none => rw [h] at hv; exact List.mem_append.mpr (Or.inl (h0 v (by simpa using hv)))
+  | some t => exact List.mem_append.mpr (Or.inr (h1.2 v (by simp [h])))
+
+theorem Row.domIn_restrict {x : Row n} {L : List Nat} (h : x.domIn L) (vs : List Nat) : (x.restrict vs).domIn L := by
+  intro v hv
+  rw [Row.get_restrict] at hv
+  split at hv
+  · exact h v hv
+  · cases hv
+
 theorem ljStep_point {D : Dataset} {g : Graph} {μ0 μ1 : Row n} {B : List (Row n)} {XB : Row n → List (Row n)}
-    {e : Expr} {own vs mustA mayA mustB mayB : List Nat}
-    (hb : ∀ c, (XB c).Perm (push c B)) (hok : ExprOK D g n e)
-    (hs1 : scopeOK e.vars own (mustA ++ mustB) (mayA ++ mayB) = true)
-    (hs2 : scopeOK (mayB ++ e.vars) vs mustA mayA = true)
+    {e : Expr} {own vs mustA mayA mustB mayB ctx : List Nat} (h0 : μ0.domIn ctx)
+    (hb : ∀ c : Row n, c.domIn (ctx ++ mayA) → (XB c).Perm (push c B)) (hok : ExprOK D g n e)
+    (hs1 : ForgetOK μ0 e.vars own (mustA ++ mustB) (mayA ++ mayB))
+    (hs2 : RememberOK μ0 (mayB ++ e.vars) vs mustA mayA)
     (hba : BoundsOK μ1 mustA mayA) (hbb : ∀ μ ∈ B, BoundsOK μ mustB mayB) (hc : μ1.compat μ0 = true) :
     (ljStepM D g μ0 XB e own vs (μ0.merge μ1)).Perm
       (push μ0 (ljRow (fun μ => isTrue (Spec.evalExpr D g Row.empty μ e)) B μ1)) := by
   let fe : Row n → Bool := fun μ => isTrue (Spec.evalExpr D g Row.empty μ e)
   let fm : Row n → Bool := fun y => isTrue (Model.evalExpr D g (y.forget μ0 own) e)
   let x := μ0.merge μ1
+  have hxd : x.domIn (ctx ++ mayA) := Row.domIn_merge h0 hba
+  have hb1 := hb x hxd
+  have hb2 := hb (x.restrict vs) (Row.domIn_restrict hxd vs)
   -- (1) the filtered right-hand solutions are the pushed matches
   have hF1 : ((XB x).filter fm).Perm (push μ0 (ljMatches fe B μ1)) := by
-    refine ((hb x).filter fm).trans ?_
+    refine (hb1.filter fm).trans ?_
     apply List.Perm.of_eq
     simp only [push, ljMatches, List.filter_filterMap, List.filterMap_filterMap]
     apply List.filterMap_congr
@@ -164,7 +182,7 @@ theorem ljStep_point {D : Dataset} {g : Graph} {μ0 μ1 : Row n} {B : List (Row 
   -- (3) the re-check under `remember`
   have hany : (XB (x.restrict vs)).any (fun y => isTrue (Model.evalExpr D g y e)) =
       !(ljMatches fe B μ1).isEmpty := by
-    rw [(hb (x.restrict vs)).any_eq]
+    rw [hb2.any_eq]
     have hν : ∀ v ∈ mayB ++ e.vars, (x.restrict vs).get v = μ1.get v := restrict_scope hs2 hba
     rw [Bool.eq_iff_iff]
     simp only [push, List.any_filterMap, List.any_eq_true, Bool.not_eq_true', List.isEmpty_eq_false_iff,
@@ -243,10 +261,11 @@ theorem ljRow_ge {fe : Row n → Bool} {B : List (Row n)} {μ1 y : Row n} (hy : 
 
 /-- evalLeftJoin -/
 theorem pushdown_leftjoin {D : Dataset} {g : Graph} {μ0 : Row n} {A B XA : List (Row n)}
-    {XB : Row n → List (Row n)} {e : Expr} {own vs mustA mayA mustB mayB : List Nat}
-    (ha : XA.Perm (push μ0 A)) (hb : ∀ c, (XB c).Perm (push c B)) (hok : ExprOK D g n e)
-    (hs1 : scopeOK e.vars own (mustA ++ mustB) (mayA ++ mayB) = true)
-    (hs2 : scopeOK (mayB ++ e.vars) vs mustA mayA = true)
+    {XB : Row n → List (Row n)} {e : Expr} {own vs mustA mayA mustB mayB ctx : List Nat} (h0 : μ0.domIn ctx)
+    (ha : XA.Perm (push μ0 A)) (hb : ∀ c : Row n, c.domIn (ctx ++ mayA) → (XB c).Perm (push c B))
+    (hok : ExprOK D g n e)
+    (hs1 : ForgetOK μ0 e.vars own (mustA ++ mustB) (mayA ++ mayB))
+    (hs2 : RememberOK μ0 (mayB ++ e.vars) vs mustA mayA)
     (hba : ∀ μ ∈ A, BoundsOK μ mustA mayA) (hbb : ∀ μ ∈ B, BoundsOK μ mustB mayB) :
     (XA.flatMap (ljStepM D g μ0 XB e own vs)).Perm
       (push μ0 ((joinBag A B).filter (fun μ => isTrue (Spec.evalExpr D g Row.empty μ e)) ++
@@ -263,7 +282,7 @@ theorem pushdown_leftjoin {D : Dataset} {g : Graph} {μ0 : Row n} {A B XA : List
   | true =>
     have hp : pushOne μ0 μ1 = some (μ0.merge μ1) := by simp [pushOne, hc]
     simp only [hp]
-    exact ljStep_point hb hok hs1 hs2 (hba μ1 hμ1) hbb hc
+    exact ljStep_point h0 hb hok hs1 hs2 (hba μ1 hμ1) hbb hc
   | false =>
     have hp : pushOne μ0 μ1 = none := by simp [pushOne, hc]
     simp only [hp]
